@@ -47,6 +47,10 @@ def describe(e):
         return f"range parameters ({e['case']}): validate() ok = {e['validate_ok']}, all 128 signatures valid (independent) = {e['all_signatures_valid_independently']}"
     if ev in ("trynew", "payctor", "tryadd", "amtdecode", "apply", "encamt"):
         return f"balance / amount arithmetic deviates from Ledger.tla: {json.dumps(e)[:500]}"
+    if ev == "keygen":
+        return f"{e['what']} generated under a zero window at scalar draw {e['offset']} (width {e['width']}): outcome {e['out']}, facts {e['facts']}"
+    if ev in ("nonce", "statenonce", "noncedecode", "tagsep", "cid", "crafted"):
+        return f"{ev}: {json.dumps(e)[:500]}"
     if ev == "pedersen":
         bad = [p for p in e["perturbed"] if p["verdict"] or p["verdict"] != p["recomputed_eq"]]
         return (f"Pedersen commitment ({e['group']}, N={e['N']}, {e['params']}, m={e['m']}, r={e['r']}): element equals independent h^r*prod g_i^m_i: {e['elem_eq_independent']}, "
